@@ -201,30 +201,26 @@ Proof. split; reflexivity. Qed.
 (* === extension round 4: filters and masks =================================================== *)
 (* --- primitiveUnits=objectBoundingBox: the number attributes (stdDeviation, dx/dy, radius, scale) ----------- *)
 (* `resolve_param` is built from the SOURCE-DERIVED slices of filter.rs (std_dev_scaled, offset_dx/dy, shadow_dx/dy,
-   displace_scale, morph_fix / morph_positive / morph_scaled, prim_scale).  For every box with area and every
-   attribute value: the stored numbers are those of the same primitive written in user space with its lengths
-   mapped through the box (x lengths * width, y lengths * height, displacement scale * mean).  feMorphology (since
-   4d36085 the radii are resolved BEFORE the zero fallbacks): every given radius without a negative component, zero
-   and one-zero radii included.  Guard = the known class below (radius absent or negative) *)
-Theorem C18_primitive_params_equiv : forall p B, 0 < rw B -> 0 < rh B -> KnownClass_morph_fallback p = false ->
+   displace_scale, morph_fix / morph_positive / morph_scaled / morph_default, prim_scale).  FULL strength: for every box
+   with area and EVERY attribute value the stored numbers are those of the same primitive written in user space with
+   its lengths mapped through the box (x lengths * width, y lengths * height, displacement scale * mean); feMorphology
+   with the radius absent, negative, zero, one-zero or positive (since 4d36085 the radii are resolved before the zero
+   fallbacks, since e3b9753 the fallback radius is the constant 1) *)
+Theorem C18_primitive_params_equiv : forall p B, 0 < rw B -> 0 < rh B ->
   rparam_eqb (resolve_param p (rw B, rh B)) (resolve_param (map_param p B) (1, 1)) = true.
 Proof. exact param_equiv. Qed.
 Print Assumptions C18_primitive_params_equiv.
 
-(* the class is real: radius="-1 3" on a 50x20 box gives (50, 20) (the box size), the mapped user-space radius="-50 60"
-   gives (1, 1); without a radius (50, 20) against (1, 1): the fallback value is the scale, not 1 *)
-Theorem C18_primitive_params_equiv_refuted :
-  exists p B, 0 < rw B /\ 0 < rh B /\ KnownClass_morph_fallback p = true /\
-    rparam_eqb (resolve_param p (rw B, rh B)) (resolve_param (map_param p B) (1, 1)) = false.
-Proof. exact morph_fallback_refuted. Qed.
-Print Assumptions C18_primitive_params_equiv_refuted.
-
-(* the former witness (radius "0 3" on a 50x20 box, repaired by 4d36085) now satisfies the equivalence: (1, 60) both *)
-Example C18_nv_morph_zero_fixed :
+(* the three former witnesses on a 50x20 box now satisfy the equivalence: radius "0 3" -> (1, 60) both (4d36085);
+   radius "-1 3" -> (1, 1) both, no radius -> (1, 1) both (e3b9753) *)
+Example C18_nv_morph_witnesses_fixed :
   let B := {| rx := 10; ry := 10; rw := 50; rh := 20 |} in
-  KnownClass_morph_fallback (FP_morph (Some [0; 3])) = false /\
   resolve_param (FP_morph (Some [0; 3])) (rw B, rh B) = RP_morph 1 (3 * 20) /\
-  resolve_param (map_param (FP_morph (Some [0; 3])) B) (1, 1) = RP_morph 1 (3 * 20 * 1).
+  resolve_param (map_param (FP_morph (Some [0; 3])) B) (1, 1) = RP_morph 1 (3 * 20 * 1) /\
+  resolve_param (FP_morph (Some [-(1); 3])) (rw B, rh B) = RP_morph 1 1 /\
+  resolve_param (map_param (FP_morph (Some [-(1); 3])) B) (1, 1) = RP_morph 1 1 /\
+  resolve_param (FP_morph None) (rw B, rh B) = RP_morph 1 1 /\
+  resolve_param (map_param (FP_morph None) B) (1, 1) = RP_morph 1 1.
 Proof. vm_compute. repeat split; reflexivity. Qed.
 
 (* stdDeviation: the (one or two) numbers times the box size, negative products clamped to 0 *)
@@ -311,6 +307,6 @@ Example C18_nv_mask_users :
 Proof. vm_compute. repeat split; reflexivity. Qed.
 
 Example C18_nv_param_regular :
-  KnownClass_morph_fallback (FP_morph (Some [1 # 16; 1 # 8])) = false /\
+  resolve_param (FP_morph (Some [1 # 16; 1 # 8])) (50, 20) = RP_morph ((1 # 16) * 50) ((1 # 8) * 20) /\
   resolve_param (FP_shadow None (Some (1 # 4)) (Some (1 # 8)) None None) (40, 80) = RP_shadow (2 * 40) ((1 # 4) * 80) ((1 # 8) * 40) ((1 # 8) * 80).
 Proof. vm_compute. split; reflexivity. Qed.
